@@ -10,7 +10,8 @@ From Snax Require Import Base.Prelude Model.AccIR Model.AccSem Model.C06Overlap 
 
 Definition ev_rel (e1 e2 : event) : Prop :=
   match e1, e2 with
-  | ELaunch a kn rg lv, ELaunch a' _ rg' lv' => a = a' /\ lv = lv' /\ (forall f, In f kn -> rg f = rg' f)
+  | ELaunch a kn rg lv, ELaunch a' kn' rg' lv' =>
+      a = a' /\ lv = lv' /\ (forall f, In f kn -> rg f = rg' f) /\ (forall f, In f kn -> In f kn')
   | EAwait a, EAwait a' => a = a'
   | ECall g n ar, ECall g' n' ar' => g = g' /\ n = n' /\ ar = ar'
   | EReset a, EReset a' => a = a'
@@ -35,7 +36,6 @@ Fixpoint reads_off (F : list val) (s : stmt) {struct s} : Prop :=
   | SFor iv lb ub sp iters rs body ys =>
       off F lb /\ off F ub /\ off F sp
       /\ Forall (fun it => bind_ok F (it_arg it) (it_init it)) iters
-      /\ List.length ys = List.length iters /\ List.length rs = List.length iters
       /\ Forall (fun ky => bind_ok F (fst ky) (snd ky)) (combine (map it_arg iters) ys)
       /\ Forall (fun ka => bind_ok F (fst ka) (snd ka)) (combine rs (map it_arg iters))
       /\ blk body
@@ -171,7 +171,6 @@ Lemma reads_off_for iv lb ub sp iters rs body ys :
   reads_off F (SFor iv lb ub sp iters rs body ys) =
   (off F lb /\ off F ub /\ off F sp
    /\ Forall (fun it => bind_ok F (it_arg it) (it_init it)) iters
-   /\ List.length ys = List.length iters /\ List.length rs = List.length iters
    /\ Forall (fun ky => bind_ok F (fst ky) (snd ky)) (combine (map it_arg iters) ys)
    /\ Forall (fun ka => bind_ok F (fst ka) (snd ka)) (combine rs (map it_arg iters))
    /\ block_reads_off F body).
@@ -226,6 +225,7 @@ Proof.
     + intros f Hf. apply Hr. intros [Ha Hin]. destruct Hl as [Hl|Hl].
       * rewrite Hl in Hin. destruct Hin.
       * cbn [stmt_launches] in Hl. subst a. rewrite Nat.eqb_refl in Hl. discriminate.
+    + apply Hk.
   - (* SAwait *)
     intros a k _ _ m1 m2 (He & Hr & Hk & Hn & Ht). cbn [exec_stmt]. unfold emit, Rel. cbn [env regs known ncalls tr].
     repeat split; try assumption. constructor; [reflexivity|exact Ht].
@@ -234,7 +234,7 @@ Proof.
     repeat split; try assumption. constructor; [reflexivity|exact Ht].
   - (* SFor *)
     intros iv lb ub sp its rs body ys IHb Hro Hl m1 m2 HR.
-    rewrite reads_off_for in Hro. destruct Hro as (Hlb & Hub & Hsp & Hits & Hly & Hlr & Hys & Hrs & Hbody).
+    rewrite reads_off_for in Hro. destruct Hro as (Hlb & Hub & Hsp & Hits & Hys & Hrs & Hbody).
     assert (Hlb' : block_launch_ok body).
     { destruct Hl as [Hl|Hl]; [left; exact Hl|right]. rewrite stmt_launches_for in Hl. exact Hl. }
     specialize (IHb Hbody Hlb').
